@@ -6,6 +6,7 @@ solver holding the path condition and all axioms of the atoms created so far.  T
 remains (that exhaustion is the unwinding assertion) or a budget is hit (inconclusive).
 """
 import time
+from fractions import Fraction
 import z3
 
 _CUR = [None]
@@ -28,6 +29,34 @@ class Infeasible(BaseException):
 
 class BudgetExceeded(BaseException):
     pass
+
+
+def is_nonlinear(e, _depth=0):
+    """Does a z3 term contain a product of non-numerals, a power, a division by a
+    non-numeral or an integer conversion?  (Used to keep such axioms out of the light
+    solver.)"""
+    todo = [e]
+    seen = 0
+    while todo:
+        t = todo.pop()
+        seen += 1
+        if seen > 4000:
+            return True
+        if not z3.is_app(t):
+            return True
+        k = t.decl().kind()
+        ch = t.children()
+        if k == z3.Z3_OP_MUL:
+            if sum(1 for c in ch if not (z3.is_rational_value(c) or z3.is_int_value(c))) >= 2:
+                return True
+        elif k in (z3.Z3_OP_POWER, z3.Z3_OP_TO_INT, z3.Z3_OP_IS_INT, z3.Z3_OP_IDIV, z3.Z3_OP_MOD,
+                   z3.Z3_OP_REM):
+            return True
+        elif k == z3.Z3_OP_DIV:
+            if not (z3.is_rational_value(ch[1]) or z3.is_int_value(ch[1])):
+                return True
+        todo.extend(ch)
+    return False
 
 
 class Stats:
@@ -58,8 +87,15 @@ class PathCtx:
         self.solver = z3.Solver()
         self.solver.set('timeout', explorer.query_timeout_ms)
         self.solver.set('rlimit', explorer.rlimit)
+        # light solver: path condition + linear axioms only (no definitional equations of
+        # sqrt / inverse / let atoms ...).  unsat there is unsat in the full context too.
+        self.light = z3.Solver()
+        self.light.set('timeout', min(explorer.query_timeout_ms, 5000))
+        self.light.set('rlimit', explorer.rlimit)
         if explorer.seed:
             self.solver.set('random_seed', explorer.seed % (2 ** 30))
+            self.light.set('random_seed', explorer.seed % (2 ** 30))
+        self.n_heavy = 0
         self.atoms = []
         self.atom_keys = []
         self.atom_by_key = {}
@@ -101,9 +137,20 @@ class PathCtx:
         self.atom_by_key[key] = idx
         return idx
 
-    def add_axiom(self, e):
+    def add_axiom(self, e, heavy=None):
         self.n_axioms += 1
         self.solver.add(e)
+        if heavy is None:
+            heavy = is_nonlinear(e)
+        if heavy:
+            self.n_heavy += 1
+        else:
+            self.light.add(e)
+
+    def add_pc(self, e):
+        self.solver.add(e)
+        self.light.add(e)
+        self.pc.append(e)
 
     def log_arg_of_poly(self, a0):
         """exp(p): if p == k*log(x) (+ c) for a single log atom, return x^k * e^c."""
@@ -129,23 +176,36 @@ class PathCtx:
         return r
 
     # ---- solver plumbing
-    def _check(self, *extra):
+    def _check(self, *extra, light=False):
         t0 = time.time()
+        solver = self.light if (light and self.n_heavy) else self.solver
+        if light and not self.n_heavy:
+            light = False
         if extra:
-            self.solver.push()
+            solver.push()
             for e in extra:
-                self.solver.add(e)
-        if self.ex.stats.sample_smt is None and extra and self.ex.want_sample:
+                solver.add(e)
+        if self.ex.stats.sample_smt is None and extra and self.ex.want_sample and not light:
             try:
-                self.ex.stats.sample_smt = self.solver.to_smt2()[:6000]
+                self.ex.stats.sample_smt = solver.to_smt2()[:6000]
             except Exception:
                 pass
-        r = self.solver.check()
+        r = solver.check()
         model = None
         if r == z3.sat:
-            model = self.solver.model()
+            model = solver.model()
+        if r == z3.unknown and not light and self.ex.oneshot:
+            # portfolio: z3's incremental mode and its one-shot pipeline (nlsat) have
+            # different strengths; a fresh solver without a wall-clock timeout parameter
+            # selects the latter (bounded by rlimit instead)
+            s2 = z3.Solver()
+            s2.set('rlimit', self.ex.rlimit * 10)
+            s2.add(solver.assertions())
+            r = s2.check()
+            if r == z3.sat:
+                model = s2.model()
         if extra:
-            self.solver.pop()
+            solver.pop()
         dt = time.time() - t0
         st = self.ex.stats
         st.solver_s += dt
@@ -163,11 +223,16 @@ class PathCtx:
                 raise Infeasible()
             return
         e = b_z3(cond)
-        self.solver.add(e)
-        self.pc.append(e)
-        r, _ = self._check()
+        self.add_pc(e)
+        r, _ = self._check(light=True)
         if r == 'unsat':
             raise Infeasible()
+        if self.n_heavy:
+            r, _ = self._check()
+            if r == 'unsat':
+                raise Infeasible()
+            if r == 'unknown':
+                self.notes.append('unknown-feasibility')
 
     def decide(self, cond):
         """Fork on a z3 Bool: follow one feasible side, queue the other."""
@@ -176,8 +241,8 @@ class PathCtx:
             if not isinstance(d, bool):
                 raise RuntimeError("decision replay out of sync (expected bool)")
         else:
-            rt, _ = self._check(cond)
-            rf, _ = self._check(z3.Not(cond))
+            rt = self._feasible(cond)
+            rf = 'sat' if rt == 'unsat' else self._feasible(z3.Not(cond))
             t = rt != 'unsat'
             f = rf != 'unsat'
             if rt == 'unknown' or rf == 'unknown':
@@ -194,9 +259,18 @@ class PathCtx:
         self.pos += 1
         self.trace.append(d)
         c = cond if d else z3.Not(cond)
-        self.solver.add(c)
-        self.pc.append(c)
+        self.add_pc(c)
         return d
+
+    def _feasible(self, cond):
+        """sat / unsat / unknown for pc AND cond: the light context first (its unsat is
+        definitive), the full one otherwise."""
+        if self.n_heavy:
+            r, _ = self._check(cond, light=True)
+            if r == 'unsat':
+                return r
+        r, _ = self._check(cond)
+        return r
 
     def choose(self, k, label=None):
         """Fork over range(k) without a solver variable (a structural choice)."""
@@ -215,11 +289,23 @@ class PathCtx:
         self.trace.append(('ch', v))
         return v
 
-    def concretize_int(self, e, limit=12):
-        """Enumerate the feasible values of an Int term (fork per value)."""
-        e = z3.simplify(e)
-        if z3.is_int_value(e):
-            return e.as_long()
+    def concretize_int(self, e, limit=12, real=None):
+        """Enumerate the feasible values of int(x) for a real term x (fork per value).
+        Works with real arithmetic only: a model of the path condition gives a value of x,
+        its truncation v is feasible, and `v <= x < v+1` (resp. the mirrored range for
+        negative v) is excluded for the next round - no ToInt reaches the solver."""
+        if real is None:
+            e = z3.simplify(e)
+            if z3.is_int_value(e):
+                return e.as_long()
+            # recover the real argument of trunc_z3
+            real = _trunc_arg(e)
+        if real is None:
+            raise BudgetExceeded("cannot concretise a non-truncation integer term")
+        rs = z3.simplify(real)
+        if z3.is_rational_value(rs):
+            fr = Fraction(rs.numerator_as_long(), rs.denominator_as_long())
+            return int(fr)
         if self.pos < len(self.prefix):
             d = self.prefix[self.pos]
             if not (isinstance(d, tuple) and d[0] == 'int'):
@@ -227,41 +313,64 @@ class PathCtx:
             excluded = list(d[1])
         else:
             excluded = []
+
+        def rng(v):
+            if v > 0:
+                return z3.And(real >= v, real < v + 1)
+            if v < 0:
+                return z3.And(real > v - 1, real <= v)
+            return z3.And(real > -1, real < 1)
         for x in excluded:
-            self.solver.add(e != x)
-            self.pc.append(e != x)
-        # integer truncation of a nonlinear real term sends z3 into NIA, where it may ignore
-        # its wall-clock timeout: bound the resources for this kind of query
-        self.solver.set('rlimit', 400000)
-        try:
-            r, m = self._check()
-        finally:
-            self.solver.set('rlimit', self.ex.rlimit)
+            self.add_pc(z3.Not(rng(x)))
+        r, m = self._check()
         if r != 'sat':
             if r == 'unknown':
                 self.notes.append('unknown-feasibility')
                 raise BudgetExceeded("unknown while concretising an integer")
             raise Infeasible()
-        v = m.eval(e, model_completion=True).as_long()
+        val = m.eval(real, model_completion=True)
+        v = int(_as_fraction(val))
         if len(excluded) + 1 > limit:
             raise BudgetExceeded("integer with more than %d feasible values" % limit)
-        # is there another value?
-        r2, _ = self._check(e != v)
+        r2 = self._feasible(z3.Not(rng(v)))
         if r2 != 'unsat':
             self.new_work.append(self.trace + [('int', tuple(excluded + [v]))])
         self.pos += 1
         self.trace.append(('int', tuple(excluded)))
-        self.solver.add(e == v)
-        self.pc.append(e == v)
+        self.add_pc(rng(v))
         return v
+
+
+def _trunc_arg(e):
+    """trunc_z3 builds If(x >= 0, ToInt(x), -ToInt(-x)); recover x."""
+    try:
+        if e.decl().kind() == z3.Z3_OP_ITE:
+            c = e.arg(0)
+            if c.decl().kind() == z3.Z3_OP_GE:
+                return c.arg(0)
+        if e.decl().kind() == z3.Z3_OP_TO_INT:
+            return e.arg(0)
+    except Exception:
+        pass
+    return None
+
+
+def _as_fraction(val):
+    if z3.is_rational_value(val):
+        return Fraction(val.numerator_as_long(), val.denominator_as_long())
+    if z3.is_algebraic_value(val):
+        a = val.approx(40)
+        return Fraction(a.numerator_as_long(), a.denominator_as_long())
+    raise BudgetExceeded("model value %r is not a number" % val)
 
 
 class Explorer:
     """Runs fn(ctx) over all feasible paths."""
 
     def __init__(self, max_paths=400, wall_s=120.0, query_timeout_ms=20000, seed=0,
-                 want_sample=True, rlimit=4000000):
+                 want_sample=True, rlimit=4000000, oneshot=True):
         self.rlimit = rlimit
+        self.oneshot = oneshot
         self.max_paths = max_paths
         self.wall_s = wall_s
         self.query_timeout_ms = query_timeout_ms
